@@ -1,6 +1,9 @@
 //! Helpers shared by the wire-format modules of h_wire (streams `wire-<fmt>-emit|parse`).
 #![allow(dead_code)]
 use smoltcp::phy::{Checksum, ChecksumCapabilities};
+use smoltcp::wire::{
+    ArpHardware, ArpOperation, DhcpOpCode, DhcpMessageType, DnsOpcode, DnsRcode, DnsQueryType, EthernetProtocol, Icmpv4Message, Icmpv4DstUnreachable, Icmpv4Redirect, Icmpv4TimeExceeded, Icmpv4ParamProblem, Icmpv6Message, Icmpv6DstUnreachable, Icmpv6ParamProblem, Icmpv6TimeExceeded, Ieee802154FrameType, Ieee802154AddressingMode, Ieee802154FrameVersion, IpProtocol, Ipv6OptionType, Ipv6OptionRouterAlert, Ipv6RoutingType, MldRecordType, NdiscOptionType,
+};
 use std::collections::BTreeMap;
 use std::panic::{catch_unwind, AssertUnwindSafe};
 use svh::*;
@@ -499,4 +502,171 @@ pub fn mutations(r: &mut Rng, base: &[u8], fields: &[(usize, usize)], tier: &str
         out.push(b);
     }
     out
+}
+
+// ---------------------------------------------------------------- named values of the wire enums
+// Frozen tables (name = number) of every `enum_with_unknown!` type exported by smoltcp::wire,
+// transcribed from the RFC-assigned values in the pinned source.  Generators draw every named
+// variant (and numbers adjacent to each named one) from these tables and build a named variant by
+// its PATH (`of_raw`), never through the crate's own `From<number>`: a representation value the
+// documentation names must emit its assigned number and parse back to itself even when the stack
+// itself never produces it.  `check_enum` is the pure table obligation of the C06 oracle.
+pub trait WireEnum: Copy + PartialEq + std::fmt::Debug + 'static {
+    const LABEL: &'static str;
+    const RAW_MAX: u32;
+    /// (variant name, assigned number, the variant built by path)
+    fn named() -> Vec<(&'static str, u32, Self)>;
+    /// the crate's `From<number>`
+    fn from_raw(x: u32) -> Self;
+    /// the crate's `Into<number>`
+    fn to_raw(self) -> u32;
+}
+
+macro_rules! wire_enum {
+    ($T:ident, $raw:ty, $label:expr, [$($V:ident = $val:expr),*]) => {
+        impl WireEnum for $T {
+            const LABEL: &'static str = $label;
+            const RAW_MAX: u32 = <$raw>::MAX as u32;
+            fn named() -> Vec<(&'static str, u32, Self)> {
+                vec![$((stringify!($V), $val as u32, $T::$V)),*]
+            }
+            fn from_raw(x: u32) -> Self {
+                <$T>::from(x as $raw)
+            }
+            fn to_raw(self) -> u32 {
+                <$raw>::from(self) as u32
+            }
+        }
+    };
+}
+
+wire_enum!(ArpHardware, u16, "ArpHardware (src/wire/arp.rs Hardware)", [Ethernet = 1]);
+wire_enum!(ArpOperation, u16, "ArpOperation (src/wire/arp.rs Operation)", [Request = 1, Reply = 2]);
+wire_enum!(DhcpOpCode, u8, "DhcpOpCode (src/wire/dhcpv4.rs OpCode)", [Request = 1, Reply = 2]);
+wire_enum!(DhcpMessageType, u8, "DhcpMessageType (src/wire/dhcpv4.rs MessageType)", [Discover = 1, Offer = 2, Request = 3, Decline = 4, Ack = 5, Nak = 6, Release = 7, Inform = 8]);
+wire_enum!(DnsOpcode, u8, "DnsOpcode (src/wire/dns.rs Opcode)", [Query = 0x00, Status = 0x01]);
+wire_enum!(DnsRcode, u8, "DnsRcode (src/wire/dns.rs Rcode)", [NoError = 0x00, FormErr = 0x01, ServFail = 0x02, NXDomain = 0x03, NotImp = 0x04, Refused = 0x05, YXDomain = 0x06, YXRRSet = 0x07, NXRRSet = 0x08, NotAuth = 0x09, NotZone = 0x0a]);
+wire_enum!(DnsQueryType, u16, "DnsQueryType (src/wire/dns.rs Type)", [A = 0x0001, Ns = 0x0002, Cname = 0x0005, Soa = 0x0006, Aaaa = 0x001c]);
+wire_enum!(EthernetProtocol, u16, "EthernetProtocol (src/wire/ethernet.rs EtherType)", [Ipv4 = 0x0800, Arp = 0x0806, Ipv6 = 0x86DD]);
+wire_enum!(Icmpv4Message, u8, "Icmpv4Message (src/wire/icmpv4.rs Message)", [EchoReply = 0, DstUnreachable = 3, Redirect = 5, EchoRequest = 8, RouterAdvert = 9, RouterSolicit = 10, TimeExceeded = 11, ParamProblem = 12, Timestamp = 13, TimestampReply = 14]);
+wire_enum!(Icmpv4DstUnreachable, u8, "Icmpv4DstUnreachable (src/wire/icmpv4.rs DstUnreachable)", [NetUnreachable = 0, HostUnreachable = 1, ProtoUnreachable = 2, PortUnreachable = 3, FragRequired = 4, SrcRouteFailed = 5, DstNetUnknown = 6, DstHostUnknown = 7, SrcHostIsolated = 8, NetProhibited = 9, HostProhibited = 10, NetUnreachToS = 11, HostUnreachToS = 12, CommProhibited = 13, HostPrecedViol = 14, PrecedCutoff = 15]);
+wire_enum!(Icmpv4Redirect, u8, "Icmpv4Redirect (src/wire/icmpv4.rs Redirect)", [Net = 0, Host = 1, NetToS = 2, HostToS = 3]);
+wire_enum!(Icmpv4TimeExceeded, u8, "Icmpv4TimeExceeded (src/wire/icmpv4.rs TimeExceeded)", [TtlExpired = 0, FragExpired = 1]);
+wire_enum!(Icmpv4ParamProblem, u8, "Icmpv4ParamProblem (src/wire/icmpv4.rs ParamProblem)", [AtPointer = 0, MissingOption = 1, BadLength = 2]);
+wire_enum!(Icmpv6Message, u8, "Icmpv6Message (src/wire/icmpv6.rs Message)", [DstUnreachable = 0x01, PktTooBig = 0x02, TimeExceeded = 0x03, ParamProblem = 0x04, EchoRequest = 0x80, EchoReply = 0x81, MldQuery = 0x82, RouterSolicit = 0x85, RouterAdvert = 0x86, NeighborSolicit = 0x87, NeighborAdvert = 0x88, Redirect = 0x89, MldReport = 0x8f, RplControl = 0x9b]);
+wire_enum!(Icmpv6DstUnreachable, u8, "Icmpv6DstUnreachable (src/wire/icmpv6.rs DstUnreachable)", [NoRoute = 0, AdminProhibit = 1, BeyondScope = 2, AddrUnreachable = 3, PortUnreachable = 4, FailedPolicy = 5, RejectRoute = 6]);
+wire_enum!(Icmpv6ParamProblem, u8, "Icmpv6ParamProblem (src/wire/icmpv6.rs ParamProblem)", [ErroneousHdrField = 0, UnrecognizedNxtHdr = 1, UnrecognizedOption = 2]);
+wire_enum!(Icmpv6TimeExceeded, u8, "Icmpv6TimeExceeded (src/wire/icmpv6.rs TimeExceeded)", [HopLimitExceeded = 0, FragReassemExceeded = 1]);
+wire_enum!(Ieee802154FrameType, u8, "Ieee802154FrameType (src/wire/ieee802154.rs FrameType)", [Beacon = 0b000, Data = 0b001, Acknowledgement = 0b010, MacCommand = 0b011, Multipurpose = 0b101, FragmentOrFrak = 0b110, Extended = 0b111]);
+wire_enum!(Ieee802154AddressingMode, u8, "Ieee802154AddressingMode (src/wire/ieee802154.rs AddressingMode)", [Absent = 0b00, Short = 0b10, Extended = 0b11]);
+wire_enum!(Ieee802154FrameVersion, u8, "Ieee802154FrameVersion (src/wire/ieee802154.rs FrameVersion)", [Ieee802154_2003 = 0b00, Ieee802154_2006 = 0b01, Ieee802154 = 0b10]);
+wire_enum!(IpProtocol, u8, "IpProtocol (src/wire/ip.rs Protocol)", [HopByHop = 0x00, Icmp = 0x01, Igmp = 0x02, Tcp = 0x06, Udp = 0x11, Ipv6Route = 0x2b, Ipv6Frag = 0x2c, IpSecEsp = 0x32, IpSecAh = 0x33, Icmpv6 = 0x3a, Ipv6NoNxt = 0x3b, Ipv6Opts = 0x3c]);
+wire_enum!(Ipv6OptionType, u8, "Ipv6OptionType (src/wire/ipv6option.rs Type)", [Pad1 = 0, PadN = 1, RouterAlert = 5, Rpl = 0x63]);
+wire_enum!(Ipv6OptionRouterAlert, u16, "Ipv6OptionRouterAlert (src/wire/ipv6option.rs RouterAlert)", [MulticastListenerDiscovery = 0, Rsvp = 1, ActiveNetworks = 2]);
+wire_enum!(Ipv6RoutingType, u8, "Ipv6RoutingType (src/wire/ipv6routing.rs Type)", [Type0 = 0, Nimrod = 1, Type2 = 2, Rpl = 3, Experiment1 = 253, Experiment2 = 254, Reserved = 252]);
+wire_enum!(MldRecordType, u8, "MldRecordType (src/wire/mld.rs RecordType)", [ModeIsInclude = 0x01, ModeIsExclude = 0x02, ChangeToInclude = 0x03, ChangeToExclude = 0x04, AllowNewSources = 0x05, BlockOldSources = 0x06]);
+wire_enum!(NdiscOptionType, u8, "NdiscOptionType (src/wire/ndiscoption.rs Type)", [SourceLinkLayerAddr = 0x1, TargetLinkLayerAddr = 0x2, PrefixInformation = 0x3, RedirectedHeader = 0x4, Mtu = 0x5]);
+
+/// the representation value for wire number `x`: the named variant (built by path) when the
+/// frozen table names `x`, the crate's conversion (`Unknown(x)`) otherwise
+pub fn of_raw<T: WireEnum>(x: u32) -> T {
+    match T::named().into_iter().find(|e| e.1 == x) {
+        Some(e) => e.2,
+        None => T::from_raw(x),
+    }
+}
+
+/// a wire number for a field of type T: every named value, the numbers adjacent to each named
+/// value, 0, the maximum, and arbitrary ones
+pub fn draw_raw<T: WireEnum>(r: &mut Rng) -> u32 {
+    let n = T::named();
+    let v = n[r.below(n.len() as u64) as usize].1;
+    match r.below(10) {
+        0..=4 => v,
+        5 => v.wrapping_add(1) & T::RAW_MAX,
+        6 => v.wrapping_sub(1) & T::RAW_MAX,
+        7 => *r.pick(&[0u32, T::RAW_MAX, T::RAW_MAX - 1, 1]),
+        _ => (r.next() as u32) & T::RAW_MAX,
+    }
+}
+pub fn draw<T: WireEnum>(r: &mut Rng) -> T {
+    of_raw::<T>(draw_raw::<T>(r))
+}
+
+/// "distinct named variants emit distinct numbers and parse back to themselves": each named variant
+/// converts to its assigned number and that number converts back to it; no two named variants share a
+/// number; every other number converts to a value that converts back to the same number and is not a
+/// named variant.  Returns (class, detail) failures.
+pub fn check_enum<T: WireEnum>() -> Vec<(String, String)> {
+    let mut f = vec![];
+    let n = T::named();
+    let slug = T::LABEL.split(' ').next().unwrap_or("?").to_lowercase();
+    for (name, v, var) in &n {
+        let out = var.to_raw();
+        if out != *v {
+            f.push((format!("enum-{}-emit-number", slug), format!("{}::{} emits {} (0x{:x}), its assigned number is {} (0x{:x})", T::LABEL, name, out, out, v, v)));
+        }
+        let back = T::from_raw(*v);
+        if back != *var {
+            f.push((format!("enum-{}-parse-number", slug), format!("{}: the number {} (0x{:x}) assigned to {} parses as {:?}", T::LABEL, v, v, name, back)));
+        }
+        let rt = T::from_raw(out);
+        if rt != *var {
+            f.push((format!("enum-{}-roundtrip", slug), format!("{}::{} emits {} which parses back as {:?}", T::LABEL, name, out, rt)));
+        }
+    }
+    for i in 0..n.len() {
+        for j in i + 1..n.len() {
+            if n[i].2.to_raw() == n[j].2.to_raw() {
+                f.push((format!("enum-{}-collision", slug), format!("{}::{} and ::{} both emit {}", T::LABEL, n[i].0, n[j].0, n[i].2.to_raw())));
+            }
+        }
+    }
+    for x in 0..=T::RAW_MAX {
+        if f.len() > 8 {
+            break;
+        }
+        let t = T::from_raw(x);
+        let y = t.to_raw();
+        if y != x {
+            f.push((format!("enum-{}-roundtrip", slug), format!("{}: the number {} parses as {:?} which emits {}", T::LABEL, x, t, y)));
+        }
+        let named_here = n.iter().any(|e| e.1 == x);
+        let is_named = n.iter().any(|e| e.2 == t);
+        if is_named && !named_here {
+            f.push((format!("enum-{}-parse-number", slug), format!("{}: the unassigned number {} parses as the named {:?}", T::LABEL, x, t)));
+        }
+    }
+    f
+}
+
+pub fn all_enum_checks() -> Vec<fn() -> Vec<(String, String)>> {
+    vec![
+        check_enum::<ArpHardware>,
+        check_enum::<ArpOperation>,
+        check_enum::<DhcpOpCode>,
+        check_enum::<DhcpMessageType>,
+        check_enum::<DnsOpcode>,
+        check_enum::<DnsRcode>,
+        check_enum::<DnsQueryType>,
+        check_enum::<EthernetProtocol>,
+        check_enum::<Icmpv4Message>,
+        check_enum::<Icmpv4DstUnreachable>,
+        check_enum::<Icmpv4Redirect>,
+        check_enum::<Icmpv4TimeExceeded>,
+        check_enum::<Icmpv4ParamProblem>,
+        check_enum::<Icmpv6Message>,
+        check_enum::<Icmpv6DstUnreachable>,
+        check_enum::<Icmpv6ParamProblem>,
+        check_enum::<Icmpv6TimeExceeded>,
+        check_enum::<Ieee802154FrameType>,
+        check_enum::<Ieee802154AddressingMode>,
+        check_enum::<Ieee802154FrameVersion>,
+        check_enum::<IpProtocol>,
+        check_enum::<Ipv6OptionType>,
+        check_enum::<Ipv6OptionRouterAlert>,
+        check_enum::<Ipv6RoutingType>,
+        check_enum::<MldRecordType>,
+        check_enum::<NdiscOptionType>,
+    ]
 }
